@@ -88,8 +88,9 @@ def file_twins():
 
 def file_other():
     """a different file: centred lattice with symmetry, more elements and free variables, no twins"""
-    f = header(latt=2, symm=('-X, 1/2+Y, 1/2-Z',), sfac=('C', 'H', 'N', 'S'), fvar=(0.75, 0.4, 0.6), extra=['SIMU 0.04 N1 S1', 'WGHT 0.1'])
-    f += [A('N1', 3, (0.11, 0.21, 0.31), sof=21.0), A('S1', 4, (0.12, 0.22, 0.32), sof=-21.0),
+    f = header(latt=2, symm=('-X, 1/2+Y, 1/2-Z',), sfac=('C', 'H', 'N', 'S'), fvar=(0.75, 0.4, 0.6),
+               extra=['SIMU 0.04 N1 Sx1', 'WGHT 0.1', 'OMIT 1 0 0', 'EQIV $1 -X, -Y, -Z'])
+    f += [A('N1', 3, (0.11, 0.21, 0.31), sof=21.0), A('Sx1', 4, (0.12, 0.22, 0.32), sof=-21.0),
           L('AFIX 137'), A('H1A', 2, (0.2, 0.3, 0.4), u=(-1.5,)), A('H1B', 2, (0.21, 0.31, 0.41), u=(-1.5,)), L('AFIX 0'),
           A('C7', 1, (0.9, 0.8, 0.7), u=(0.03, 0.03, 0.03, 0.0, 0.01, 0.0)),
           L('HKLF 4'), L('END')]
@@ -131,10 +132,10 @@ def random_file(rng):
             a = dict(src, xyz=list(src['xyz']), u=list(src['u']), resi=resi)          # a text twin
         else:
             s = rng.randint(1, len(els))
-            el = els[s - 1].upper()
+            el = els[s - 1]
             u = (round(rng.uniform(0.01, 0.09), 5),) if rng.random() < 0.7 else tuple(round(rng.uniform(0.011, 0.05), 5) for _ in range(6))
             if el == 'H':
-                u = (rng.choice([-1.2, -1.5]),)
+                u = (rng.choice([-1.2, -1.5]),)   # mixed-case names ('Cl1', 'Br2') stay as written: look-ups upper-case them
             a = A(f'{el}{rng.randint(1, 5)}{rng.choice(["", "", "A"])}'[:4], s, tuple(round(rng.uniform(0.01, 0.99), 6) for _ in range(3)),
                   sof=rng.choice([11.0, 11.0, 10.5, 21.0 if len(fv) > 1 else 11.0]), u=u, resi=resi)
         atoms.append(a)
@@ -192,10 +193,7 @@ def canon(v, depth=0):
 def state_of(shx):
     """everything the object holds after a read, in a comparable form (public and private attributes alike:
     `resets all state`); file paths reduced to 'path'"""
-    from shelxfile.shelx.cards import LATT
-    d = {k: canon(v) for k, v in vars(shx).items()}
-    d['<LATT.lattdict>'] = sorted([k, [canon(x) for x in v]] for k, v in LATT.lattdict.items())
-    return d
+    return {k: canon(v) for k, v in vars(shx).items()}
 
 
 def fresh_process_state(text):
@@ -212,6 +210,23 @@ def fresh_process_state(text):
         os.unlink(f.name)
 
 
+def class_state():
+    """mutable containers that live on classes / at module level of the package: shared by all objects of the process.
+    (Counters such as SymmetryElement.symm_id are deliberately not included: an id that is never read.)"""
+    out = {}
+    for mn, mod in list(sys.modules.items()):
+        if not (mn == 'shelxfile' or mn.startswith('shelxfile.')) or mod is None:
+            continue
+        for cn, cls in list(vars(mod).items()):
+            if isinstance(cls, type) and getattr(cls, '__module__', '') == mn:
+                for k, v in vars(cls).items():
+                    if isinstance(v, (list, dict, set)) and not k.startswith('__'):
+                        out[f'{cn}.{k}'] = canon(v)
+            elif isinstance(cls, (list, set, dict)) and not cn.startswith('__') and len(cls) <= 64:
+                out[f'{mn}.{cn}'] = canon(cls)
+    return out
+
+
 def first_diff(a, b):
     for k in sorted(set(a) | set(b)):
         if a.get(k) != b.get(k):
@@ -221,6 +236,10 @@ def first_diff(a, b):
 
 # ------------------------------------------------------------------------------------------------
 # one history on the real code
+
+class ReadRaised(Exception):
+    pass
+
 
 class Player:
     def __init__(self, ctx, case, tmpdir):
@@ -233,14 +252,14 @@ class Player:
         self.texts = {}          # interned texts
         self.uid = {}            # id(obj) -> uid
         self.obj = {}            # uid -> obj (keeps the objects alive)
-        self.content = {}        # uid -> line dict (by construction, updated by the edits)
-        self.sfac = []
         self.deleted = []        # [(uid, obj)] since the last read
         self.cur = None          # index of the file read last
         self.steps = []          # observations
         self.mops = []           # ops for the model
         self.mfile = None
         self.opkinds = []
+        self.kind_mismatch = 0
+        self.atoms_missed = 0
 
     def intern(self, key):
         return self.texts.setdefault(key, len(self.texts) + 1)
@@ -255,29 +274,35 @@ class Player:
         except Exception:
             return 0
 
-    def mline(self, i, x):
-        if x['k'] == 'a':
-            o = self.shx._reslist[i] if i < len(self.shx._reslist) else None
-            return ['a', self.tid_raw(atom_text(x)) if isinstance(o, str) or o is None else self.tid_obj(o),
-                    self.intern(('name', f'{x["name"]}_{x["resi"]}'.upper()))]
-        return [x['k'], self.tid_raw(x['text'])]
-
     # -- reads ---------------------------------------------------------------------------------
     def after_read(self, k):
+        """tag every object of the freshly parsed list with its line number (the model's uid) and describe the list to
+        the model: which slots hold strings / atoms / other objects is the parser's business (C02, C03), not C08's"""
         from shelxfile.atoms.atom import Atom
         self.cur = k
         lines = self.files[k]
-        self.uid, self.obj, self.content, self.deleted = {}, {}, {}, []
+        self.uid, self.obj, self.deleted = {}, {}, []
+        mfile = []
+        self.kind_mismatch = 0
+        self.atoms_missed = 0
         for i, x in enumerate(self.shx._reslist):
-            if not isinstance(x, str):
+            if isinstance(x, str):
+                kind = 'r'
+                mfile.append(['r', self.tid_raw(x)])
+            else:
                 self.uid[id(x)] = i
                 self.obj[i] = x
-                if isinstance(x, Atom) and i < len(lines) and lines[i]['k'] == 'a':
-                    self.content[i] = dict(lines[i], xyz=list(lines[i]['xyz']), u=list(lines[i]['u']))
-        for x in lines:
-            if x['k'] != 'a' and x['text'].upper().startswith('SFAC'):
-                self.sfac = [e.upper() for e in x['text'].split()[1:]]
-        return [self.mline(i, x) for i, x in enumerate(lines)]
+                if isinstance(x, Atom):
+                    kind = 'a'
+                    mfile.append(['a', self.tid_obj(x), self.intern(('name', x.fullname.upper()))])
+                else:
+                    kind = 'c'
+                    mfile.append(['c', self.tid_obj(x)])
+            if i >= len(lines) or lines[i]['k'] != kind:
+                self.kind_mismatch += 1
+                if kind == 'a' or (i < len(lines) and lines[i]['k'] == 'a'):
+                    self.atoms_missed += 1
+        return mfile
 
     def atom(self, i):
         al = self.shx.atoms.all_atoms
@@ -288,19 +313,20 @@ class Player:
         shx = self.shx
         kind = op[0]
         if kind in ('read_string', 'read_file', 'reload'):
-            if kind == 'reload':
-                if shx.resfile is None:
-                    return None
-                k = self.cur
-                shx.reload()
-            elif kind == 'read_string':
-                k = op[1] % len(self.files)
-                shx.read_string(render(self.files[k]))
-            else:
-                k = op[1] % len(self.files)
-                p = Path(self.tmp) / f'f{k}.res'
-                p.write_text(render(self.files[k]))
-                shx.read_file(p)
+            if kind == 'reload' and shx.resfile is None:
+                return None
+            k = self.cur if kind == 'reload' else op[1] % len(self.files)
+            try:
+                if kind == 'reload':
+                    shx.reload()
+                elif kind == 'read_string':
+                    shx.read_string(render(self.files[k]))
+                else:
+                    p = Path(self.tmp) / f'f{k}.res'
+                    p.write_text(render(self.files[k]))
+                    shx.read_file(p)
+            except Exception as e:       # a valid file, read into an object with a history, must read like into a new one
+                raise ReadRaised(type(e).__name__)
             return [['read', self.after_read(k)]], False, ('read', k)
         if kind in ('del_id', 'delete', 'del_name', 'rename', 'element', 'to_iso'):
             a = self.atom(op[1])
@@ -326,13 +352,9 @@ class Player:
                 raised = self.call(b.delete)
                 self.note_deleted(before)
                 return [['lookup'], ['delete', self.uid.get(id(b), 10 ** 6)]], raised, None
-            c = self.content.get(u)
-            if c is None:
-                return None
             if kind == 'rename':
                 a.name = op[2]
-                c['name'] = op[2]
-                return [['rename', u, self.intern(('name', f'{op[2]}_{c["resi"]}'.upper())), self.tid_obj(a)]], False, None
+                return [['rename', u, self.intern(('name', f'{op[2]}_{a.resinum}'.upper())), self.tid_obj(a)]], False, None
             if kind == 'element':
                 el = op[2].upper()
                 a.element = op[2]
@@ -529,7 +551,8 @@ def evaluate(ctx, cases, stream=None):
         nontrivial = len(pl.opkinds) > 1
         ctx.count(['hist', case['files'], case['ops']], nontrivial=nontrivial,
                   sample=dict(ops=case['ops'][:6], atoms=len(pl.shx.atoms.all_atoms), steps=len(pl.steps)) if len(pl.steps) > 2 else None,
-                  tags=['len=%d' % min(len(case['ops']), 41)] + sorted({'op=' + k for k in pl.opkinds}) + (['twins'] if pl.twins else []))
+                  tags=['len=%d' % min(len(case['ops']), 41)] + sorted({'op=' + k for k in pl.opkinds}) + (['twins'] if pl.twins else []) +
+                  (['line-kinds-differ-from-construction'] if getattr(pl, 'kind_mismatch', 0) else []))
         # implementation vs spec --------------------------------------------------------------
         reported = False
         for si, st in enumerate(pl.steps):
@@ -547,11 +570,17 @@ def evaluate(ctx, cases, stream=None):
                 break
         for rr in pl.reread_fail:
             small = dict(case, ops=case['ops'][:rr['nops']])
-            ctx.fail(f'C08|reread|{rr["against"]}|{rr["field"]}',
-                     f'after {small["ops"]}: the re-read object differs from a {rr["against"]} reading the same text in `{rr["field"]}`',
+            what = (f'the read raised {rr["field"]} on a valid file' if rr['against'] == 'raise' else
+                    f'class-level data `{rr["field"]}` changed during the read (shared by every later read in the process)'
+                    if rr['against'] == 'class-state' else
+                    f'the re-read object differs from a {rr["against"]} reading the same text in `{rr["field"]}`')
+            ctx.fail(f'C08|reread|{rr["against"]}|{rr["field"]}', f'after {small["ops"]}: {what}',
                      dict(case=small, stream='reread', expected=rr['expected'], actual=rr['actual']))
             reported = True
             break
+        if getattr(pl, 'atoms_missed', 0):
+            ctx.fail('C08|parse|atoms', f'{pl.atoms_missed} atom line(s) of a generated valid file were not parsed as atoms (or vice versa); '
+                     'the history ran on a truncated model', dict(case=case, stream='table'), kind='correspondence')
         if pl.error:
             ctx.fail('C08|harness|' + pl.error.split(':')[0], f'history could not be played: {pl.error}', dict(case=case, stream='table'), kind='correspondence')
             continue
@@ -615,6 +644,8 @@ def play(ctx, case, tmp):
                 pl.mops += mops
             st['mi'] = len(pl.msteps)
             pl.msteps.append(st)
+    except ReadRaised as e:
+        pl.reread_fail.append(dict(against='raise', field=str(e), nops=n, expected='no exception', actual=str(e)))
     except Exception as e:      # the history itself must be playable; anything else is reported, never swallowed
         pl.error = f'{type(e).__name__}: {e} at op {op}'
     return pl
@@ -623,6 +654,19 @@ def play(ctx, case, tmp):
 def check_reread(pl, k, nops):
     """the long-lived object after this read against a fresh process that read the same text (cached per text); when
     they differ, a fresh object in this process tells object-level from process-level (class attribute) leakage"""
+    global _class_base, _tainted
+    cs = class_state()
+    if _class_base is None:
+        _class_base = _fresh_class_state()
+    common = set(cs) & set(_class_base)          # modules imported lazily exist on one side only
+    fld = first_diff({k2: cs[k2] for k2 in common}, {k2: _class_base[k2] for k2 in common})
+    if fld is not None:
+        pl.reread_fail.append(dict(against='class-state', field=fld, nops=nops, expected=_class_base.get(fld), actual=cs.get(fld)))
+        _class_base = json.loads(json.dumps(cs, default=str))      # report the change once, at the read that made it
+        _tainted = True
+        return
+    if _tainted:       # every later comparison with a pristine process would only repeat that finding
+        return
     text = render(pl.files[k])
     mine = {k2: v for k2, v in state_of(pl.shx).items() if k2 != 'resfile'}
     ref = {k2: v for k2, v in _fresh(text).items() if k2 != 'resfile'}
@@ -635,6 +679,19 @@ def check_reread(pl, k, nops):
     here = json.loads(json.dumps(state_of(fresh), default=str))
     against = 'fresh-process' if here.get(fld) == json.loads(json.dumps(mine.get(fld), default=str)) else 'fresh-object'
     pl.reread_fail.append(dict(against=against, field=fld, nops=nops, expected=ref.get(fld), actual=mine.get(fld)))
+
+
+_class_base = None
+_tainted = False
+
+
+def _fresh_class_state():
+    env = dict(os.environ, PYTHONDONTWRITEBYTECODE='1')
+    p = subprocess.run([sys.executable, '-m', 'harness.props.c08', '--class-state'], cwd=str(core.VERIF), env=env,
+                       stdout=subprocess.PIPE, stderr=subprocess.PIPE, text=True, timeout=120)
+    if p.returncode != 0:
+        raise RuntimeError('fresh process failed: ' + p.stderr[-1500:])
+    return json.loads(p.stdout.splitlines()[-1])
 
 
 def _fresh(text):
@@ -727,6 +784,10 @@ def run(ctx):
 
 
 if __name__ == '__main__':
+    if len(sys.argv) == 2 and sys.argv[1] == '--class-state':
+        core.import_repo()
+        from shelxfile import Shelxfile as _S
+        print(json.dumps(class_state(), default=str))
     if len(sys.argv) == 3 and sys.argv[1] == '--state':
         core.import_repo()
         from shelxfile import Shelxfile as _S
